@@ -152,9 +152,99 @@ def tables(lines):
 
 
 # ------------------------------------------------------------------ property oracle
+JCOLS = ["ID", "pdg", "status", "E", "px", "py", "pz"]
+JSLOT = {"ID": 11, "pdg": 9, "status": 21, "E": 5, "px": 6, "py": 7, "pz": 8}      # Particle.data_ as documented (see oscgen.SLOT)
+
+
+def expected_cols(row):
+    """{attribute: value} of one particle line, from its tokens alone"""
+    return {"ID": int(row[0]), "pdg": int(row[1]), "status": int(row[2]), "E": G.nearest_double(row[3]),
+            "px": G.nearest_double(row[4]), "py": G.nearest_double(row[5]), "pz": G.nearest_double(row[6])}
+
+
+def expected_slots(row):
+    return {JSLOT[a]: float(v) for a, v in expected_cols(row).items()}
+
+
+def pdg_charge(pdg):
+    """the PDG charge in exact thirds, None for a code PDGID does not know"""
+    from particle import PDGID
+    try:
+        if not bool(PDGID(pdg).is_valid):
+            return None
+        return Fraction(PDGID(pdg).charge).limit_denominator(3)
+    except Exception:
+        return None
+
+
+def check_rows(ev, rows, label):
+    """the particles of one loaded event against the token rows the file has for it (columns, derived mass and charge)"""
+    if len(ev) != len(rows):
+        return f"event {label}: {len(rows)} particle lines in the file, {len(ev)} particles loaded"
+    for r, (p, row) in enumerate(zip(ev, rows)):
+        exp = expected_cols(row)
+        for a, v in exp.items():
+            got = getattr(p, a)
+            if got != v or (isinstance(v, int) and not isinstance(got, (int, np.integer))):
+                return f"event {label} particle {r}: column {a} file says {v!r}, loaded {got!r}"
+        E, px, py, pz = (Fraction(x) for x in row[3:7])
+        m2 = E * E - px * px - py * py - pz * pz
+        if exp["pdg"] in MASSLESS:
+            okm = p.mass == 0.0
+            em = 0.0
+        elif m2 < 0:
+            okm = math.isnan(p.mass)
+            em = float("nan")
+        else:
+            em = math.sqrt(m2)
+            okm = (not math.isnan(p.mass)) and abs(p.mass - em) <= 1e-9 * max(1.0, abs(float(E)))
+        if not okm:
+            return f"event {label} particle {r}: derived mass {p.mass!r}, sqrt(E^2-p^2) = {em!r}"
+        ch = pdg_charge(exp["pdg"])
+        if ch is not None:
+            ech = int(ch * 3) if abs(ch) < 1 else int(ch)
+            if p.charge != ech:
+                return f"event {label} particle {r}: pdg {exp['pdg']} charge {p.charge!r}, expected {ech}"
+        elif not math.isnan(p.charge):
+            return f"event {label} particle {r}: unknown pdg {exp['pdg']} has charge {p.charge!r}"
+    return None
+
+
+def check_particle_list(pl, nevents, want_rows, labels):
+    """particle_list() (documented shape) against the token rows of the events held"""
+    if nevents == 1:
+        pl = [pl]
+    if not isinstance(pl, list) or len(pl) != len(want_rows):
+        return f"particle_list() describes {len(pl) if isinstance(pl, list) else type(pl).__name__} events, {len(want_rows)} are held"
+    for k, (ev, rows) in enumerate(zip(pl, want_rows)):
+        if len(ev) != len(rows):
+            return f"particle_list(): event {labels[k]} has {len(ev)} lines, the file has {len(rows)}"
+        for r, (line, row) in enumerate(zip(ev, rows)):
+            exp = [expected_cols(row)[a] for a in JCOLS]
+            if len(line) != 7 or any(a != b for a, b in zip(line, exp)):
+                return f"particle_list(): event {labels[k]} line {r} = {list(line)!r}, the file says {row!r}"
+    return None
+
+
+def load_decoy(ptype, tmpdir):
+    """another, unrelated file (other particle type, other trailer) is opened while the object under inspection is alive:
+    nothing the first object answers may change (state shared between objects / kept per class)"""
+    from sparkx.Jetscape import Jetscape
+    other = "parton" if ptype == "hadron" else "hadron"
+    d = {"ptype": other, "sep": "\t", "sigma": "42.5", "sigerr": "0.75", "final_newline": True,
+         "events": [{"rows": [["0", "2" if other == "parton" else "321", "0", "5", "3", "0", "4"]] * 2, "weight": "1", "ep": "0"},
+                    {"rows": [], "weight": "1", "ep": "0"}]}
+    path = os.path.join(tmpdir, f"decoy_{os.getpid()}.dat")
+    with open(path, "w") as f:
+        f.write(render(d))
+    try:
+        return Jetscape(path, particletype=other)
+    finally:
+        os.remove(path)
+
+
 def oracle_load(doc, tmpdir, sel=None):
     from sparkx.Jetscape import Jetscape
-    from particle import PDGID
     path = os.path.join(tmpdir, f"oracle_{os.getpid()}.dat")
     with open(path, "w") as f:
         f.write(render(doc))
@@ -168,6 +258,10 @@ def oracle_load(doc, tmpdir, sel=None):
                 o = Jetscape(path, **kw)
             except Exception as e:
                 return f"well-formed JETSCAPE {doc['ptype']} file is rejected: {type(e).__name__}: {e}"[:300]
+            try:
+                decoy = load_decoy(doc["ptype"], tmpdir)
+            except Exception as e:
+                return f"a second, well-formed file opened while the first object is alive is rejected: {type(e).__name__}: {e}"[:300]
             idx = list(range(len(doc["events"])))
             if isinstance(sel, int):
                 idx = [sel]
@@ -175,43 +269,12 @@ def oracle_load(doc, tmpdir, sel=None):
                 idx = list(range(sel[0], sel[1] + 1))
             want = [doc["events"][i] for i in idx]
             evs = o.particle_objects_list()
-            if all(len(e["rows"]) == 0 for e in want) and evs == [[]] and len(want) == 1:
-                evs = [[]]
             if len(evs) != len(want):
                 return f"{len(want)} events expected, {len(evs)} returned"
             for k, (ev, wev) in enumerate(zip(evs, want)):
-                if len(ev) != len(wev["rows"]):
-                    return f"event {idx[k] + 1}: {len(wev['rows'])} particle lines in the file, {len(ev)} particles loaded"
-                for r, (p, row) in enumerate(zip(ev, wev["rows"])):
-                    exp = {"ID": int(row[0]), "pdg": int(row[1]), "status": int(row[2]), "E": G.nearest_double(row[3]),
-                           "px": G.nearest_double(row[4]), "py": G.nearest_double(row[5]), "pz": G.nearest_double(row[6])}
-                    for a, v in exp.items():
-                        if getattr(p, a) != v:
-                            return f"event {idx[k] + 1} particle {r}: column {a} file says {v!r}, loaded {getattr(p, a)!r}"
-                    E, px, py, pz = (Fraction(x) for x in row[3:7])
-                    m2 = E * E - px * px - py * py - pz * pz
-                    if exp["pdg"] in MASSLESS:
-                        okm = p.mass == 0.0
-                        em = 0.0
-                    elif m2 < 0:
-                        okm = math.isnan(p.mass)
-                        em = float("nan")
-                    else:
-                        em = math.sqrt(m2)
-                        okm = (not math.isnan(p.mass)) and abs(p.mass - em) <= 1e-9 * max(1.0, abs(float(E)))
-                    if not okm:
-                        return f"event {idx[k] + 1} particle {r}: derived mass {p.mass!r}, sqrt(E^2-p^2) = {em!r}"
-                    try:
-                        valid = bool(PDGID(exp["pdg"]).is_valid)
-                    except Exception:
-                        valid = False
-                    if valid:
-                        ch = Fraction(PDGID(exp["pdg"]).charge).limit_denominator(3)
-                        ech = int(ch * 3) if abs(ch) < 1 else int(ch)
-                        if p.charge != ech:
-                            return f"event {idx[k] + 1} particle {r}: pdg {exp['pdg']} charge {p.charge!r}, expected {ech}"
-                    elif not math.isnan(p.charge):
-                        return f"event {idx[k] + 1} particle {r}: unknown pdg {exp['pdg']} has charge {p.charge!r}"
+                msg = check_rows(ev, wev["rows"], idx[k] + 1)
+                if msg:
+                    return msg
             if o.num_events() != len(want):
                 return f"num_events() = {o.num_events()}, file/selection has {len(want)}"
             cnt = np.asarray(o.num_output_per_event())
@@ -222,10 +285,10 @@ def oracle_load(doc, tmpdir, sel=None):
             if sg != (G.nearest_double(doc["sigma"]), G.nearest_double(doc["sigerr"])):
                 return f"get_sigmaGen() = {sg}, file states ({doc['sigma']}, {doc['sigerr']})"
             try:
-                o.particle_list()
+                pl = o.particle_list()
             except Exception as e:
                 return f"particle_list() raises {type(e).__name__}: {e}"
-            return None
+            return check_particle_list(pl, len(want), [w["rows"] for w in want], [i + 1 for i in idx])
     finally:
         try:
             os.remove(path)
